@@ -1,25 +1,23 @@
 package main
 
 import (
+	"bytes"
+	"errors"
 	"fmt"
+	"go/token"
 	"os"
-	"strings"
 
-	"vharness/internal/core"
+	"github.com/quasilyte/go-ruleguard/ruleguard"
 )
 
 func main() {
-	pkgs, _, err := core.Load(os.Args[1], os.Args[2:], nil)
-	fmt.Println("err", err, "pkgs", len(pkgs))
-	bad := 0
-	for _, p := range pkgs {
-		if p.NErrors > 0 {
-			bad++
-			fmt.Println("==", p.ID)
-			for _, e := range p.Errors {
-				fmt.Println("   ", strings.TrimSpace(e))
-			}
-		}
+	os.Chdir(os.Args[1])
+	for _, f := range os.Args[2:] {
+		e := ruleguard.NewEngine()
+		e.InferBuildContext()
+		data, rerr := os.ReadFile(f)
+		err := e.Load(&ruleguard.LoadContext{Fset: token.NewFileSet()}, f, bytes.NewReader(data))
+		var ie *ruleguard.ImportError
+		fmt.Printf("%s: readerr=%v loaderr=%v isImport=%v groups=%d\n", f, rerr, err, errors.As(err, &ie), 0)
 	}
-	fmt.Println("bad", bad)
 }
